@@ -2,7 +2,8 @@
 # usage: lib/seedrun.sh <PROPERTY> <diff> [tier]  — applies the diff to /repo, runs the check, reverts.
 set -u
 cd "$(dirname "$0")/.."
-id="$1"; diff="$2"; tier="${3:-quick}"
+id="$1"; diff="$(realpath "$2")"; tier="${3:-quick}"
+mkdir -p .work; exec 8>"$PWD/.work/repo.lock"; flock -x 8; export VERIF_REPO_LOCKED=1
 if ! git -C /repo diff --quiet; then echo "/repo working tree is dirty" >&2; exit 3; fi
 git -C /repo apply "$diff" || { echo "diff does not apply" >&2; exit 3; }
 mkdir -p .work
